@@ -12,7 +12,7 @@ META = dict(
     explanation='z3x: the real closures of rxsci.math are executed on z3 terms. (1) Algebraic exactness over the reals, unbounded length: the accumulator captured from the real variance() factory is run from the symbolic state '
                 '(A/k, B - A^2/k, k) (A = sum x, B = sum x^2, k >= 1 an integer variable) on one more item and z3 shows the post-state is the same invariant for k+1 (Welford induction step), the base case from the real seed, and the real output map '
                 'gives B-A^2/k over k-1 for k >= 2 and 0 below; likewise sum and mean. (2) Whole runs of the real pipelines (sum, mean, variance, stddev, formal.variance, formal.stddev, with and without key_mapper) on n <= 5 real-valued terms, on plain observables '
-                'and per key under with_memory_store: every streaming output and the reduce output equal the textbook definition (sample n-1 / population n), variance of fewer than two items is 0, and the streaming value after the last item equals the reduce value. '
+                'and per key under with_memory_store: every streaming output and the reduce output equal the textbook definition (sample n-1 / population n), variance of fewer than two items is 0, and the streaming value after the last item equals the reduce value; data-dependent branches of the closures (min / max comparisons, or any equality test on items) are forked on by the term executor and every feasible path is checked under its path condition. '
                 '(3) Rounding at reduced width: the same real variance closure runs on IEEE terms of a small format F; for all data x1, x2 in [16, 32) with reference variance >= 1 (condition number <= 32) z3 shows |variance_F - reference| <= reference/4, the first-order '
                 'Chan-Golub-LeVeque bound n*kappa*u for a Welford/two-pass update at u = 2^-8; the textbook sum-of-squares formula violates it. (4) min / max (which branch on the data) by symbolic execution on integers.',
     bounds=dict(quick='induction: any k >= 1 (unbounded); whole runs n <= 4 terms, 2 groups; rounding: F = FPSort(5,8), reference in FPSort(8,20), n = 2', thorough='whole runs n <= 5; rounding also binary16 vs binary32, cvc5 cross-check of every query'),
@@ -43,6 +43,11 @@ def _defs(xs, kind):
     n = len(xs)
     if kind == 'sum':
         return sum(xs[1:], xs[0]) if xs else z3.RealVal(0)
+    if kind in ('min', 'max'):
+        m = xs[0]
+        for x in xs[1:]:
+            m = z3.If(x < m, x, m) if kind == 'min' else z3.If(x > m, x, m)
+        return m
     mean = sum(xs[1:], xs[0]) / n
     if kind == 'mean':
         return mean
@@ -64,6 +69,8 @@ OPS = {
     'fstddev': (lambda r: rs.math.formal.stddev(reduce=r), 'fvar', True),
     'variance_k': (lambda r: rs.math.variance(key_mapper=lambda i: i * 2, reduce=r), 'var', False),
     'mean_k': (lambda r: rs.math.mean(key_mapper=lambda i: i * 2, reduce=r), 'mean', False),
+    'min': (lambda r: rs.math.min(reduce=r), 'min', False),
+    'max': (lambda r: rs.math.max(reduce=r), 'max', False),
 }
 
 
@@ -74,7 +81,7 @@ class Result(object):
         self.p = p
 
     def finish(self, q, bad, unknown, extra=None):
-        out = dict(paths=0, solver_queries=q.n, solver_s=round(q.solver_s, 3), queries=q.log[:40])
+        out = dict(paths=getattr(self, 'npaths', 0), solver_queries=q.n, solver_s=round(q.solver_s, 3), queries=q.log[:40])
         if extra:
             out.update(extra)
         if q.disagree:
@@ -116,6 +123,8 @@ def _concrete_check(name, reduce, mode, vals):
         mean = sum(pre) / n
         if kind == 'sum':
             e = sum(pre)
+        elif kind in ('min', 'max'):
+            e = min(pre) if kind == 'min' else max(pre)
         elif kind == 'mean':
             e = mean
         elif kind == 'var':
@@ -140,49 +149,55 @@ class WholeRun(Result):
         xs = [z3.Real('x%d' % i) for i in range(n)]
         km = 2 if name.endswith('_k') else 1
         bad, unknown = [], []
+        run = _plain if mode == 'plain' else _mux
+
+        def both():
+            return run(xs, [fac(False)]), run(xs, [fac(True)])
         with z3x.float_slots(), z3x.sqrt_uf():
-            run = _plain if mode == 'plain' else _mux
-            stream = run(xs, [fac(False)])
-            red = run(xs, [fac(True)])
-        if len(stream) != n or (len(red) != 1):
-            if not (n == 0 and mode == 'plain' and name.startswith('mean')):
-                bad.append(dict(problem='number of outputs', streaming=len(stream), reduce=len(red), n=n, replay=dict(op=name, mode=mode, vals=[1.0, 2.0, 4.0][:n])))
-                return self.finish(q, bad, unknown)
-        for i, out in enumerate(stream + red):
-            pre = [x * km for x in (xs[:i + 1] if i < n else xs)]
-            if not pre:
-                continue
-            d = _defs(pre, kind)
-            exp = z3x.SqrtUF.F(d) if sq else d
-            if isinstance(out, tuple) and out and out[0] == 'ERR':
-                unknown.append('pipeline error on terms: %s' % (out[1][:100],))
-                continue
-            r, m = z3x.terms_equal(out, exp, q, '%s %s n=%d out#%d' % (name, mode, n, i))
-            if r in ('same', 'unsat'):
-                continue
-            if r == 'sat':
-                vals = _model_vals(m, xs)
-                ok, got, want = _concrete_check(name, i >= n, mode, vals)
-                if not ok:
-                    bad.append(dict(op=name, mode=mode, reduce=i >= n, items=vals, observed=got, expected=want, replay=dict(op=name, mode=mode, vals=vals, reduce=i >= n)))
+            paths, complete = z3x.explore(both, q)
+        self.npaths = len(paths)
+        if not complete:
+            unknown.append('more than %d data-dependent paths' % len(paths))
+        for pc, (stream, red) in paths:
+            if len(stream) != n or (len(red) != 1):
+                if not (n == 0 and mode == 'plain' and name.startswith('mean')):
+                    bad.append(dict(problem='number of outputs', streaming=len(stream), reduce=len(red), n=n, replay=dict(op=name, mode=mode, vals=[1.0, 2.0, 4.0, 8.0, 16.0][:n])))
+                    continue
+            for i, out in enumerate(stream + red):
+                pre = [x * km for x in (xs[:i + 1] if i < n else xs)]
+                if not pre:
+                    continue
+                d = _defs(pre, kind)
+                exp = z3x.SqrtUF.F(d) if sq else d
+                if isinstance(out, tuple) and out and out[0] == 'ERR':
+                    unknown.append('pipeline error on terms: %s' % (out[1][:100],))
+                    continue
+                r, m = z3x.equal_under(pc, out, exp, q, '%s %s n=%d out#%d' % (name, mode, n, i))
+                if r in ('same', 'unsat'):
+                    continue
+                if r == 'sat':
+                    vals = _model_vals(m, xs)
+                    ok, got, want = _concrete_check(name, i >= n, mode, vals)
+                    if not ok:
+                        bad.append(dict(op=name, mode=mode, reduce=i >= n, items=vals, observed=got, expected=want, replay=dict(op=name, mode=mode, vals=vals, reduce=i >= n)))
+                    else:
+                        unknown.append('model does not reproduce: %s' % vals)
                 else:
-                    unknown.append('model does not reproduce: %s' % vals)
-            else:
-                unknown.append('%s on output %d' % (r, i))
-        # streaming value after the last item == reduce value
-        if n >= 1 and stream and red:
-            r, m = z3x.terms_equal(stream[-1], red[0], q, '%s %s n=%d last-streaming == reduce' % (name, mode, n))
-            if r == 'sat':
-                vals = _model_vals(m, xs)
-                s_ok, s_got, _ = _concrete_check(name, False, mode, vals)
-                r_ok, r_got, _ = _concrete_check(name, True, mode, vals)
-                if s_got[-1:] != r_got[-1:]:
-                    bad.append(dict(op=name, mode=mode, items=vals, problem='streaming value after the last item differs from the reduce value', streaming=s_got, reduce=r_got,
-                                    replay=dict(op=name, mode=mode, vals=vals, cmp='stream_reduce')))
-                else:
-                    unknown.append('stream/reduce model does not reproduce')
-            elif r not in ('same', 'unsat'):
-                unknown.append('%s on stream==reduce' % r)
+                    unknown.append('%s on output %d' % (r, i))
+            # streaming value after the last item == reduce value
+            if n >= 1 and stream and red:
+                r, m = z3x.equal_under(pc, stream[-1], red[0], q, '%s %s n=%d last-streaming == reduce' % (name, mode, n))
+                if r == 'sat':
+                    vals = _model_vals(m, xs)
+                    s_ok, s_got, _ = _concrete_check(name, False, mode, vals)
+                    r_ok, r_got, _ = _concrete_check(name, True, mode, vals)
+                    if s_got[-1:] != r_got[-1:]:
+                        bad.append(dict(op=name, mode=mode, items=vals, problem='streaming value after the last item differs from the reduce value', streaming=s_got, reduce=r_got,
+                                        replay=dict(op=name, mode=mode, vals=vals, cmp='stream_reduce')))
+                    else:
+                        unknown.append('stream/reduce model does not reproduce')
+                elif r not in ('same', 'unsat'):
+                    unknown.append('%s on stream==reduce' % r)
         return self.finish(q, bad, unknown, dict(encoded=['rxsci/math/*.py accumulators and output maps executed on z3 Real terms through the real scan/map operators']))
 
     def replay(self, args):
@@ -232,16 +247,25 @@ class Induction(Result):
         if which == 'step':
             m, s = A / kr, B - A * A / kr
             try:
-                m2, s2, k2 = acc((m, s, k), x)
-                goal = z3.And(m2 == (A + x) / z3.ToReal(k + 1), s2 == (B + x * x) - (A + x) * (A + x) / z3.ToReal(k + 1), k2 == k + 1)
-                r, mod = q.check('welford induction step (all k >= 1)', [k >= 1, z3.Not(goal)], timeout_s=120)
-                if r == 'sat':
-                    kv = mod.eval(k, model_completion=True).as_long()
-                    vals = [1.0] * kv + [3.0]
-                    ok, got, exp = _concrete_check('variance', True, 'plain', vals)
-                    (bad if not ok else unknown).append(dict(problem='Welford step violates the invariant', k=kv, observed=got, expected=exp, replay=dict(op='variance', mode='plain', vals=vals, reduce=True)) if not ok else 'model does not reproduce')
-                elif r != 'unsat':
-                    unknown.append(r)
+                paths, complete = z3x.explore(lambda: acc((m, s, k), x), q)
+                if not complete:
+                    unknown.append('too many data-dependent paths in the accumulator')
+                for pc, (m2, s2, k2) in paths:
+                    goal = z3.And(m2 == (A + x) / z3.ToReal(k + 1), s2 == (B + x * x) - (A + x) * (A + x) / z3.ToReal(k + 1), k2 == k + 1)
+                    r, mod = q.check('welford induction step (all k >= 1)', [k >= 1] + list(pc) + [z3.Not(goal)], timeout_s=120)
+                    if r == 'sat':
+                        # replay: a concrete history reaching the model state, on the real pipeline
+                        kv = mod.eval(k, model_completion=True).as_long()
+                        av = _model_vals(mod, [A, x])
+                        mean = av[0] / max(kv, 1)
+                        vals = [mean] * min(kv, 6) + [av[1]]
+                        ok, got, exp = _concrete_check('variance', True, 'plain', vals)
+                        if not ok:
+                            bad.append(dict(problem='Welford step violates the invariant', k=kv, items=vals, observed=got, expected=exp, replay=dict(op='variance', mode='plain', vals=vals, reduce=True)))
+                        else:
+                            unknown.append('induction-step model (k=%d) does not reproduce on a concrete history' % kv)
+                    elif r != 'unsat':
+                        unknown.append(r)
             except Exception as e:  # noqa
                 unknown.append('accumulator not executable on terms: %r' % (e,))
         elif which == 'base':
@@ -333,11 +357,19 @@ class SoftFloat(object):
     def __truediv__(self, o): return self._n(self.v / self._c(o))
     def __lt__(self, o): return self.v < self._c(o)
 
+    def __pow__(self, n):
+        r = self
+        for _ in range(int(n) - 1):
+            r = r * self
+        return r
+
 
 class Rounding(Result):
     """|variance_F - reference| <= reference / 4 for all x1, x2 in [16, 32) with reference >= 1"""
 
     def _variance_on(self, items):
+        if self.p.get('op') == 'fvariance':
+            return _plain(items, [rs.math.formal.variance(reduce=True)])[-1]
         return _plain(items, [rs.math.variance()])[-1]
 
     def __call__(self):
@@ -349,6 +381,13 @@ class Rounding(Result):
         F, W, rm = z3.FPSort(eb, sb), z3.FPSort(web, wsb), z3.RNE()
         fx = [z3.FP('f%d' % i, F) for i in range(n)]
         bad, unknown = [], []
+
+        def fp_pow(self_, k):        # x ** 2 on IEEE terms: repeated (correctly rounded) multiplication
+            r = self_
+            for _ in range(int(k) - 1):
+                r = r * self_
+            return r
+        z3.FPRef.__pow__ = fp_pow
         try:
             v = self._variance_on(fx)
             if not isinstance(v, z3.FPRef):
@@ -357,7 +396,8 @@ class Rounding(Result):
             return self.finish(q, bad, ['closure not executable on FP terms: %r' % (e,)])
         wx = [z3.fpFPToFP(rm, x, W) for x in fx]
         mean = sum(wx[1:], wx[0]) / z3.FPVal(n, W)
-        ref = sum([(x - mean) * (x - mean) for x in wx[1:]], (wx[0] - mean) * (wx[0] - mean)) / z3.FPVal(n - 1, W)
+        pop = self.p.get('op') == 'fvariance'
+        ref = sum([(x - mean) * (x - mean) for x in wx[1:]], (wx[0] - mean) * (wx[0] - mean)) / z3.FPVal(n if pop else n - 1, W)
         vw = z3.fpFPToFP(rm, v, W)
         cons = []
         for x in fx:
@@ -371,9 +411,9 @@ class Rounding(Result):
                 rv = m.eval(z3.fpToReal(x), model_completion=True)
                 rv = z3.simplify(rv)
                 vals.append(str(Fraction(rv.numerator_as_long(), rv.denominator_as_long())))
-            rp = self.replay([dict(vals=vals, eb=eb, sb=sb)])
+            rp = self.replay([dict(vals=vals, eb=eb, sb=sb, op=self.p.get('op'))])
             if rp['reproduced']:
-                bad.append(dict(problem='relative error above n*kappa*u', format=[eb, sb], replay=dict(vals=vals, eb=eb, sb=sb), **rp['detail']))
+                bad.append(dict(problem='relative error above n*kappa*u', format=[eb, sb], replay=dict(vals=vals, eb=eb, sb=sb, op=self.p.get('op')), **rp['detail']))
             else:
                 unknown.append('model does not reproduce in software floating point: %s' % rp['detail'])
         elif r != 'unsat':
@@ -383,11 +423,12 @@ class Rounding(Result):
     def replay(self, args):
         a = args[0]
         eb, sb = a['eb'], a['sb']
+        self.p = dict(self.p, op=a.get('op'))
         xs = [SoftFloat(Fraction(v), eb, sb) for v in a['vals']]
         got = self._variance_on(xs)
         fr = [x.v for x in xs]
         mean = sum(fr) / len(fr)
-        ref = sum((x - mean) ** 2 for x in fr) / (len(fr) - 1)
+        ref = sum((x - mean) ** 2 for x in fr) / (len(fr) if a.get('op') == 'fvariance' else len(fr) - 1)
         gv = got.v if isinstance(got, SoftFloat) else Fraction(got)
         pre = all(16 <= x < 32 for x in fr) and ref >= 1
         bad = pre and abs(gv - ref) > ref / 4
@@ -457,6 +498,8 @@ def obligations(tier, seed):
                               bound=dict(items=n, values='any real', op=name, mode=mode)))
     obs.append(Ob(PROP, 'rounding', dict(eb=5, sb=8, web=8, wsb=20, timeout=250 if q else 900, cross=not q), kind='direct', budget=300 if q else 1000, group='rounding(z3x)',
                   bound=dict(format='FPSort(5,8)', reference='FPSort(8,20)', n=2, data='[16,32)', reference_variance='>= 1')))
+    obs.append(Ob(PROP, 'rounding', dict(eb=5, sb=8, web=8, wsb=20, op='fvariance', timeout=250 if q else 900, cross=not q), kind='direct', budget=300 if q else 1000, group='rounding(z3x)',
+                  bound=dict(format='FPSort(5,8)', reference='FPSort(8,20)', n=2, data='[16,32)', reference_variance='>= 1', operator='formal.variance (population)')))
     if not q:
         obs.append(Ob(PROP, 'rounding', dict(eb=5, sb=11, web=8, wsb=24, timeout=1500), kind='direct', budget=1600, group='rounding(z3x)',
                       bound=dict(format='binary16', reference='binary32', n=2, data='[16,32)')))
